@@ -135,11 +135,11 @@ def run(ctx, rep) -> None:
             if tracker and len(loops) == 2:
                 outer, inner = loops
                 creates = [n for n in outer.body if isinstance(n, (ast.Assign, ast.AnnAssign)) and isinstance((n.targets[0] if isinstance(n, ast.Assign) else n.target), ast.Name) and (n.targets[0] if isinstance(n, ast.Assign) else n.target).id == tracker]
-                judge = [s for s in outer.body if any(any(q.endswith("._raise_exception_if_failure_tolerance_exceeded") for q in pts.callees(fi.qual, c)) for c in A.calls(s))]
+                judge = [s for s in outer.body if any(any(q.replace(":", ".").endswith("._raise_exception_if_failure_tolerance_exceeded") for q in pts.callees(fi.qual, c)) for c in A.calls(s))]
                 idx_inner = outer.body.index(inner) if inner in outer.body else -1
                 ok_scope = len(creates) == 1 and len(judge) == 1 and idx_inner >= 0 and outer.body.index(creates[0]) < idx_inner < outer.body.index(judge[0])
                 if ok_scope:
-                    jc = [c for c in A.calls(judge[0]) if any(q.endswith("._raise_exception_if_failure_tolerance_exceeded") for q in pts.callees(fi.qual, c))][0]
+                    jc = [c for c in A.calls(judge[0]) if any(q.replace(":", ".").endswith("._raise_exception_if_failure_tolerance_exceeded") for q in pts.callees(fi.qual, c))][0]
                     enum_idx = outer.target.elts[0].id if isinstance(outer.target, ast.Tuple) and isinstance(outer.target.elts[0], ast.Name) and isinstance(outer.iter, ast.Call) and isinstance(outer.iter.func, ast.Name) and outer.iter.func.id == "enumerate" else None
                     # which tracker and which index reach the counter is decided on caller and callee together (C13.3)
                     ok_scope = enum_idx is not None
@@ -188,7 +188,7 @@ def run(ctx, rep) -> None:
                 ok = tags <= {want} or bounded
                 rep.ob("C13.2", f"{ci.name}:checked-value-has-stored-dtype", ok, fi.loc(c), f"the value tested for NaN/Inf must already have the dtype it is stored in (copy_ casts implicitly: a finite wide value can overflow after the check); dtype provenance of `{computed}`: {sorted(map(str, tags))}, stored in dtype of `{stored_var}`" + (f"; exempt: {BOUNDED_RESULTS[routine]}" if bounded and not tags <= {want} else ""), sample=True)
         # ---- factor-matrix check dominates the routine and is outside the try
-        chk = [c for c in A.calls(fi.node) if any(q.endswith("._check_factor_matrix_for_diagonality_nan_and_inf") for q in pts.callees(fi.qual, c))]
+        chk = [c for c in A.calls(fi.node) if any(q.replace(":", ".").endswith("._check_factor_matrix_for_diagonality_nan_and_inf") for q in pts.callees(fi.qual, c))]
         ok = len(chk) == 1 and all_routine_calls and cfg.dominates(cfg.node_of(chk[0]), cfg.node_of(all_routine_calls[0])) and not any(chk[0] in ast.walk(b) for tr in tries for b in tr.body)
         subj_ok = False
         if chk and all_routine_calls:
@@ -218,8 +218,8 @@ def run(ctx, rep) -> None:
     impl = repo.method(DS, "_per_group_step_impl")
     icfg = CFG(impl.node)
     upd = [c for c in A.calls(impl.node) if f"{DS}._update_preconditioners" in pts.callees(impl.qual, c)]
-    app = [c for c in A.calls(impl.node) if any(q.endswith(".update_params") for q in pts.callees(impl.qual, c))]
-    reach_am = any(q.endswith("._amortized_computation") for q in pts.reachable_funcs([f"{DS}._update_preconditioners"]))
+    app = [c for c in A.calls(impl.node) if any(q.replace(":", ".").endswith(".update_params") for q in pts.callees(impl.qual, c))]
+    reach_am = any(q.replace(":", ".").endswith("._amortized_computation") for q in pts.reachable_funcs([f"{DS}._update_preconditioners"]))
     ok = len(upd) == 1 and len(app) == 1 and reach_am and icfg.dominates(icfg.node_of(upd[0]), icfg.node_of(app[0]))
     rep.ob("C13.2", "refresh-precedes-parameter-update", ok, impl.loc(), "the call that can raise PreconditionerValueError dominates update_params in the group step (no parameter of the group is modified first)", sample=True)
     rep.attempt("_counter_transition", _counter_transition, ctx, rep, judged)
